@@ -255,7 +255,7 @@ theorem pipeline_stages (tbl : List (List String × String)) (clean : String →
 
 /-- whole model: every stage's own output is a fixed point of that stage, and the result of the load is a fixed point of
 `Normalize`, outcome included.  (That the result is also a fixed point of `Canonical` and `SetDefaultValues` is proved per
-service above; the glue over the `services` mapping and the top-level sections is not proved — observed by `c11.pipeline`.) -/
+service above and, since round 6, for the whole model in `Props/C11Lift.lean`: `pipeline_fixed_point`.) -/
 theorem pipeline_stage_fixed_points (clean : String → String) (hclean : ∀ s, clean (clean s) = clean s)
     (env : Env) (henv : envLookup env "" = none) (d e : KVs)
     (h : pipeline CV.Gen.defaultValues clean env d = .ok e) :
